@@ -40,6 +40,9 @@ fn rec(reps: Vec<R>, known: Vec<Vec<Op<u8, u8>>>, all: Vec<Op<u8, u8>>, spec: Ve
         let ki: BTreeSet<String> = known[i].iter().map(|o| format!("{:?}", o)).collect();
         let kj: BTreeSet<String> = known[j].iter().map(|o| format!("{:?}", o)).collect();
         if ki == kj { r.case("mvreg.same_knowledge_eq", reps[i] == reps[j], &|| desc.clone(), &|| format!("{:?} != {:?}", reps[i], reps[j])); }
+        // == is the convergence criterion: it must also tell apart replicas that show different values (both directions of ==)
+        let (si, sj) = (shown(&reps[i]).0, shown(&reps[j]).0);
+        if si != sj { r.case("mvreg.different_reads_ne", reps[i] != reps[j] && reps[j] != reps[i], &|| desc.clone(), &|| format!("reads {:?} vs {:?} but == holds", si, sj)); }
     } }
     if depth == 0 || STOP.load(std::sync::atomic::Ordering::Relaxed) { return; }
     let n = reps.len();
